@@ -1591,6 +1591,9 @@ PyObject* Records::Write(PyObject* obj)
 	if (!PyArray_Check(obj)) {
 		throw std::runtime_error("Input must be a NumPy array object");
 	}
+	// mNrows is the number of rows in the file (reads rely on it); it is
+	// the number of rows being written only for the duration of this call
+	npy_intp nrows_in_file = mNrows;
 	mNrows = PyArray_Size(obj);
 
 	PyArray_Descr* descr = PyArray_DESCR((PyArrayObject *) obj);
@@ -1609,6 +1612,7 @@ PyObject* Records::Write(PyObject* obj)
 	}
 
 	if (mDebug) debugout("Finished writing");
+	mNrows += nrows_in_file;
 	return(ret);
 }
 
